@@ -228,6 +228,12 @@ def gen_h2(rng):
     import h2.connection
 
     c = h2.connection.H2Connection(h2.config.H2Configuration(client_side=True, header_encoding=None))
+    small_window = rng.random() < 0.3
+    if small_window:
+        # a client window that the larger bodies do not fit in: the application is held in send() until the end
+        import h2.settings
+
+        c.local_settings = h2.settings.Settings(client=True, initial_values={h2.settings.SettingCodes.INITIAL_WINDOW_SIZE: rng.choice([100, 1000])})
     c.initiate_connection()
     script = [("send", c.data_to_send())]
     plan = []
@@ -246,10 +252,11 @@ def gen_h2(rng):
         if rng.random() < 0.5:
             steps.append(("sleep", rng.choice([0.53, 3.07])))
         steps.append(("send", {"type": "http.response.start", "status": 200, "headers": [(b"x-s", b"%d" % sid)]}))
-        if rng.random() < 0.2:
+        if rng.random() < 0.2 and not (small_window and i == 0):
             steps.append(("raise",))
         else:
-            steps.append(("send", {"type": "http.response.body", "body": b"data" * rng.choice([1, 5000]), "more_body": False}))
+            big = 5000 if small_window and i == 0 else rng.choice([1, 5000])
+            steps.append(("send", {"type": "http.response.body", "body": b"data" * big, "more_body": False}))
         plan.append(steps)
     if rng.random() < 0.3:
         try:
@@ -257,8 +264,9 @@ def gen_h2(rng):
             script.append(("send", c.data_to_send()))
         except Exception:  # noqa: BLE001
             pass
-    tail = rng.choice(["none", "eof", "garbage"])
+    tail = rng.choice(["none", "eof", "garbage"] + (["eof"] * 4 if small_window else []))
     if tail == "eof":
+        script.append(("sleep", rng.choice([4.37, 0.71])))
         script.append(("eof",))
     elif tail == "garbage":
         script.append(("send", b"\x00\x00\x05\xff\x00\x00\x00\x00\x00hello"))
